@@ -89,6 +89,7 @@ pub fn run(kind: &str, args: &[String]) -> i32 {
         "frameiter" => frameiter(&mut sink, &opts),
         "soup" => soup(&mut sink, &opts),
         "blocks" => blocks(&mut sink, &opts),
+        "system" => system(&mut sink, &opts),
         "threadstext" => threads_text(&mut sink, &opts),
         "recorditer" => recorditer(&mut sink, &opts),
         _ => {
@@ -193,7 +194,10 @@ fn stream_event(src: &[u8], splits: &[usize]) -> Value {
         .map(|k| json!({"k": k, "a": items_of(&src[..k - 1]), "b": items_of(&src[*k..])}))
         .collect();
     // the other ways to walk the iterator (nth / skip / count / last) must agree with next()
-    let n_items = ProguardMapping::new(src).iter().take(src.len() + 2).count();
+    let src1 = src.to_vec();
+    // a panic is recorded as count -1 (never equal to the number of items)
+    let counted = guarded(move || ProguardMapping::new(&src1).iter().take(src1.len() + 2).count()).ok();
+    let n_items = counted.unwrap_or(0);
     let mut nth = vec![];
     for k in [0usize, 1, 2, n_items.saturating_sub(1), n_items] {
         let src2 = src.to_vec();
@@ -203,7 +207,7 @@ fn stream_event(src: &[u8], splits: &[usize]) -> Value {
         })
         .unwrap_or_else(|p| json!([{"k": "panic", "msg": p}]));
         let src3 = src.to_vec();
-        let skipped = guarded(move || ProguardMapping::new(&src3).iter().skip(k).take(src3.len() + 2).count()).unwrap_or(usize::MAX);
+        let skipped = guarded(move || ProguardMapping::new(&src3).iter().skip(k).take(src3.len() + 2).count() as i64).unwrap_or(-1);
         nth.push(json!({"k": k, "got": got, "after_skip": skipped}));
     }
     let src4 = src.to_vec();
@@ -212,7 +216,7 @@ fn stream_event(src: &[u8], splits: &[usize]) -> Value {
         Some(r) => json!([enc::record(&r)]),
     })
     .unwrap_or_else(|p| json!([{"k": "panic", "msg": p}]));
-    json!({"src": enc::bytes(src), "items": items_of(src), "splits": sp, "nth": nth, "count": n_items, "last": last})
+    json!({"src": enc::bytes(src), "items": items_of(src), "splits": sp, "nth": nth, "count": counted.map_or(-1, |n| n as i64), "last": last})
 }
 
 /// C06: what iter() yields for whole strings and for both sides of line-feed split points
@@ -443,6 +447,9 @@ fn retrace(sink: &mut Sink, o: &Opts) {
                     }
                 }
             }
+        }
+        if focus == "all" || focus == "frame" {
+            qs.extend(gen::targeted(src, 60));
         }
         if wild {
             // the remaining public entry points with arbitrary Unicode text; only completion matters here
@@ -1025,6 +1032,7 @@ fn xver(sink: &mut Sink, o: &Opts) {
             qs.push(json!({"t": "text", "text": enc::s(&gen::trace_text(&mut rng, &uni))}));
             qs.push(json!({"t": "sig", "sig": enc::s(&gen::descriptor(&mut rng, &uni))}));
         }
+        qs.extend(gen::targeted(src, 120));
         // systematic: every (class, method, parameter string) of the first few names
         for class in uni.classes.iter().take(6) {
             for method in uni.methods.iter().take(6) {
@@ -1118,13 +1126,19 @@ fn uuids(sink: &mut Sink, o: &Opts) {
         // taken before or after the parent was asked for its identifier
         if bytes.len() >= 2 && bytes.len() <= 600 {
             let (a, b) = (rng.below(bytes.len() / 2), bytes.len() / 2 + rng.below(bytes.len() / 2));
-            let fresh = proguard::ProguardMapping::new(bytes);
-            let before = fresh.section(a..b).uuid();
-            let _ = fresh.uuid();
-            let after = fresh.section(a..b).uuid();
-            let after_clone = fresh.clone().section(a..b).uuid();
-            sink.emit(json!({"bytes": enc::bytes(&bytes[a..b]), "uuid": enc::bytes(before.as_bytes()),
-                             "again": [enc::bytes(after.as_bytes()), enc::bytes(after_clone.as_bytes())]}));
+            let owned = bytes.clone();
+            // a panic in the code under test is recorded as an empty identifier (never the expected one)
+            let (before, after, after_clone) = guarded(move || {
+                let fresh = proguard::ProguardMapping::new(&owned);
+                let before = fresh.section(a..b).uuid();
+                let _ = fresh.uuid();
+                let after = fresh.section(a..b).uuid();
+                let after_clone = fresh.clone().section(a..b).uuid();
+                (before.as_bytes().to_vec(), after.as_bytes().to_vec(), after_clone.as_bytes().to_vec())
+            })
+            .unwrap_or_default();
+            sink.emit(json!({"bytes": enc::bytes(&bytes[a..b]), "uuid": enc::bytes(&before),
+                             "again": [enc::bytes(&after), enc::bytes(&after_clone)]}));
         }
     }
     let _ = std::fs::remove_dir_all(&dir);
@@ -1442,7 +1456,8 @@ fn threads_text(sink: &mut Sink, o: &Opts) {
                         let mut others: Vec<Value> = vec![];
                         for _ in 0..reps {
                             let again = run();
-                            if again != first && !others.contains(&again) {
+                            // two differing answers are enough to reject the event; keep lines small
+                            if again != first && others.len() < 2 && !others.contains(&again) {
                                 others.push(again);
                             }
                         }
@@ -1542,6 +1557,108 @@ fn blocks(sink: &mut Sink, o: &Opts) {
                 k += 1;
             }
             sink.emit(json!({"t": "block", "file": f, "block": enc::bytes(&block), "qs": out}));
+        }
+    }
+}
+
+/// A random PROGRAM of API calls in one process: several mappings, handles, cache files and
+/// interleaved frame iterators; one log line per call, in execution order (Trace_System).
+/// Objects live until the end of the program (leaked), so that iterators can stay open while other
+/// objects are created and used.
+fn system(sink: &mut Sink, o: &Opts) {
+    use crate::handles::{parse_query, Aligned, Handle, OwnedQuery};
+    let mut rng = Rng::new(o.seed);
+    let steps: usize = opt_value(o, "--steps").map(|s| s.parse().unwrap()).unwrap_or(400);
+    let nmaps = 4usize;
+    let cfg = gen::MapCfg { max_classes: 3, max_members: 6, wild: false, noise: true };
+    let srcs: Vec<&'static [u8]> = (0..nmaps)
+        .map(|k| {
+            let m = if k == 3 { gen::mapping_big_class(&mut rng) } else { gen::mapping(&mut rng, &cfg) };
+            &*Box::leak(m.into_boxed_slice())
+        })
+        .collect();
+    for (m, src) in srcs.iter().enumerate() {
+        sink.emit(json!({"t": "load", "sid": m + 1, "src": enc::bytes(src)}));
+    }
+    let unis: Vec<gen::Universe> = srcs.iter().map(|s| gen::universe(s)).collect();
+    let mut handles: Vec<Option<(&'static Handle<'static>, usize)>> = vec![None; 8];
+    let mut files: Vec<Option<(&'static Aligned, usize)>> = vec![None; 8];
+    enum It {
+        M(proguard::RemappedFrameIter<'static>),
+        C(Box<dyn Iterator<Item = proguard::StackFrame<'static>>>),
+    }
+    let mut iters: Vec<Option<It>> = (0..8).map(|_| None).collect();
+    for _ in 0..steps {
+        match rng.below(12) {
+            0 => {
+                let (h, m, p) = (rng.below(8), rng.below(nmaps), rng.chance(1, 2));
+                let mapper = if p { proguard::ProguardMapper::new_with_param_mapping(ProguardMapping::new(srcs[m]), true) } else { proguard::ProguardMapper::new(ProguardMapping::new(srcs[m])) };
+                handles[h] = Some((Box::leak(Box::new(Handle::Mapper(mapper))), m));
+                sink.emit(json!({"t": "mapper", "h": h + 1, "m": m + 1, "params": p}));
+            }
+            1 => {
+                let (f, m) = (rng.below(8), rng.below(nmaps));
+                if let Ok(bytes) = crate::handles::write_cache(srcs[m]) {
+                    sink.emit(json!({"t": "write", "f": f + 1, "m": m + 1, "bytes": enc::bytes(&bytes)}));
+                    files[f] = Some((Box::leak(Box::new(Aligned::new(&bytes))), m));
+                }
+            }
+            2 => {
+                let (h, f) = (rng.below(8), rng.below(8));
+                if let Some((buf, m)) = files[f] {
+                    if let Ok(c) = proguard::ProguardCache::parse(buf.bytes()) {
+                        handles[h] = Some((Box::leak(Box::new(Handle::Cache(c))), m));
+                        sink.emit(json!({"t": "parse", "h": h + 1, "f": f + 1}));
+                    }
+                }
+            }
+            3..=6 => {
+                let h = rng.below(8);
+                if let Some((handle, m)) = handles[h] {
+                    let q = gen::query(&mut rng, &unis[m], "all");
+                    let pq: &'static OwnedQuery = Box::leak(Box::new(parse_query(&q)));
+                    let hr = std::panic::AssertUnwindSafe(handle);
+                    let got = guarded(move || hr.answer(pq)).unwrap_or_else(|p| json!({"panic": p}));
+                    sink.emit(json!({"t": "q", "h": h + 1, "q": q, "got": got}));
+                }
+            }
+            7 | 8 => {
+                let (i, h) = (rng.below(8), rng.below(8));
+                if let Some((handle, m)) = handles[h] {
+                    let focus = if rng.chance(1, 3) { "params" } else { "frame" };
+                    let q = gen::query(&mut rng, &unis[m], focus);
+                    let f = &q["frame"];
+                    let leak = |v: &Value| -> &'static str { Box::leak(crate::handles::utf8(v).into_boxed_str()) };
+                    let (class, method) = (leak(&f["class"]), leak(&f["method"]));
+                    let line = enc::from_dec(&f["line"]) as usize;
+                    let frame: &'static proguard::StackFrame<'static> = Box::leak(Box::new(match f["params"].as_array().unwrap().first() {
+                        Some(p) => proguard::StackFrame::with_parameters(class, method, leak(p)),
+                        None => match f["file"].as_array().unwrap().first() {
+                            Some(file) => proguard::StackFrame::with_file(class, method, line, leak(file)),
+                            None => proguard::StackFrame::new(class, method, line),
+                        },
+                    }));
+                    iters[i] = Some(match handle {
+                        Handle::Mapper(mm) => It::M(mm.remap_frame(frame)),
+                        Handle::Cache(c) => It::C(Box::new(c.remap_frame(frame))),
+                    });
+                    sink.emit(json!({"t": "begin", "i": i + 1, "h": h + 1, "frame": q["frame"]}));
+                }
+            }
+            _ => {
+                let i = rng.below(8);
+                if let Some(it) = iters[i].as_mut() {
+                    let y = match it {
+                        It::M(x) => x.next(),
+                        It::C(x) => x.next(),
+                    };
+                    let got = match y {
+                        None => json!([]),
+                        Some(fr) => json!([enc::frame(&fr)]),
+                    };
+                    sink.emit(json!({"t": "next", "i": i + 1, "got": got}));
+                }
+            }
         }
     }
 }
